@@ -726,6 +726,17 @@ fn thread_body(
                             false,
                             false,
                         );
+                        // a reused allocator is history, an exhausted one is a capacity the
+                        // caller chose: a compile that ran away (a constant function that
+                        // recurses for ever fills all 62.5 million pairs before it fails) must
+                        // not make the next compile fail for lack of room, which C05 does
+                        // not forbid.  A host at a third of the capacity starts a new one.
+                        if shared_alloc.pair_count() > 20_000_000
+                            || shared_alloc.atom_count() > 20_000_000
+                            || shared_alloc.heap_size() > (1 << 30)
+                        {
+                            shared_alloc = Allocator::new();
+                        }
                     } else {
                         let mut a = Allocator::new();
                         let mut s = HashMap::new();
